@@ -11,6 +11,7 @@ require (
 
 require (
 	github.com/andot/complexconv v1.0.0 // indirect
+	github.com/anishathalye/porcupine v1.3.0
 	github.com/json-iterator/go v1.1.12 // indirect
 	github.com/modern-go/concurrent v0.0.0-20180228061459-e0a39a4cb421 // indirect
 	github.com/modern-go/reflect2 v1.0.2 // indirect
